@@ -297,5 +297,9 @@ def run(facts, rep, tier):
     rule_r1(facts, rep)
     rule_r2(facts, rep)
     c04.rule_r1(facts, rep, "C18-R3")
+    rep.rule("C18-R6", "= C04-R2 / C04-R6: the step to an including note and the reference count both read the reference index, so the index walker must reach every node through "
+             "child and next (a hole hides block references that follow a code block, rule, table ... on the incremental path) and merging must be a per-key union.")
+    c04.rule_r2(facts, rep, "C18-R6")
+    c04.rule_r6(facts, rep, "C18-R6b")
     rule_r4(facts, rep)
     rule_r5(facts, rep)
